@@ -58,7 +58,8 @@ def tree_spec(big=0):
         "d/.Links": ("file", b"Name=Zero port\nType=1\nPath=/zero\nHost=example.org\nPort=0\n\n", None),
         "gm/gophermap": ("file", b"Welcome to the map\n0About\t/about.txt\n1Dir\t/d\n", None),
         "gm/x.txt": ("file", b"x\n", None),
-        "umn/.Links": ("file", b"Name=Link to about\nType=0\nPath=/about.txt\n\n", None),
+        "umn/.Links": ("file", b"Name=Link to about\nType=0\nPath=/about.txt\n\n"
+                             b"Type=0\nPath=/d/a.txt\n\n", None),          # ... and a block that names no title
         "umn/f.txt": ("file", b"f\n", None),
         "m.mbox": ("mbox", MBOX, None),
         "md/new/1000.1.host": ("file", b"From: carol@example.com\nSubject: maildir one\n\nhi\n", None),
@@ -73,7 +74,7 @@ def tree_spec(big=0):
         "gz/k70.txt.gz": ("gz", gzip.compress(b"0123456789abcde\n" * 4480, mtime=0), None),
         "gz/k130.txt.gz": ("gz", gzip.compress(b"0123456789abcde\n" * 8320, mtime=0), None),
         "gz/k200.txt.gz": ("gz", gzip.compress(b"0123456789abcde\n" * 12800, mtime=0), None),
-        "run.sh": ("exe", b"#!/bin/sh\necho script output\n", 0o755),
+        "run.sh": ("exe", b"#!/bin/sh\necho \"script output [$SEARCHREQUEST] [$QUERY_STRING]\"\n", 0o755),   # shows what the gateway passed
         "p.pyg": ("pyg", PYG, 0o755),
     }
     return t
@@ -519,14 +520,35 @@ def known_defects(chk):
     return out
 
 
+_INIT_ERR = [None]
+
+
+def _safe_init(init_fn):
+    # a worker whose initializer raises would be respawned by the pool for ever: keep the worker, fail its first job
+    try:
+        init_fn()
+    except BaseException:      # noqa
+        import traceback
+        _INIT_ERR[0] = traceback.format_exc()
+
+
+def _safe_call(arg):
+    fn, item = arg
+    if _INIT_ERR[0]:
+        from harness import core
+        raise core.MachineryError("worker initializer failed: " + _INIT_ERR[0][-1500:])
+    return fn(item)
+
+
 def pool_map(fn, items, init_fn, procs=None):
+    import functools
     import multiprocessing as mp
     procs = procs or int(os.environ.get("VERIF_PROCS") or 16)
     ctx = mp.get_context("fork")
     if not items:
         return []
-    with ctx.Pool(min(procs, max(1, len(items))), initializer=init_fn) as pool:
-        return pool.map(fn, items, chunksize=max(1, len(items) // (procs * 8) or 1))
+    with ctx.Pool(min(procs, max(1, len(items))), initializer=functools.partial(_safe_init, init_fn)) as pool:
+        return pool.map(_safe_call, [(fn, it) for it in items], chunksize=max(1, len(items) // (procs * 8) or 1))
 
 
 def validate_parallel(module, cfg, traces, extra_files=None, timeout=2400, slice_size=600, jobs=None):
